@@ -365,7 +365,9 @@ impl Check for C13 {
             if is_heading != has("refactor.rewrite.section.list") {
                 bad.push(format!("section-to-list offered={} but line is{} a heading", has("refactor.rewrite.section.list"), if is_heading { "" } else { " not" }));
             }
-            if is_ref != has("refactor.inline.reference.quote") {
+            // a reference to a missing note cannot be inlined: whether the action is offered there is not a question of position
+            let dangling = is_ref && block.links.first().map(|&l| !lib.contains_key(scan.links[l].dest.trim_end_matches(".md"))).unwrap_or(false);
+            if !dangling && is_ref != has("refactor.inline.reference.quote") {
                 bad.push(format!("inline actions offered={} but line is{} a block reference", has("refactor.inline.reference.quote"), if is_ref { "" } else { " not" }));
             }
             if !bad.is_empty() && shown < 4 {
